@@ -1,0 +1,34 @@
+//go:build verif
+
+package peer
+
+import "time"
+
+// VerifRateRegime pins the two inputs of maybeRequest's rate test
+// (bytes/rate > maxdelay): fast = a huge download rate and a long rto, so the
+// test never limits the number of outstanding requests; slow = no measured
+// rate and a zero rto, so that at most two requests are outstanding.
+func (p *Peer) VerifRateRegime(fast bool) {
+	if fast {
+		p.download.VerifForce(1e15)
+		p.rtt = 100 * time.Second
+		p.rttvar = 0
+	} else {
+		p.download.VerifForce(0)
+		p.rtt = 0
+		p.rttvar = 0
+	}
+}
+
+// VerifPinActive makes the 5 s clock of active() independent of wall time:
+// old = the last TorAddKnown{Active} is more than 5 s in the past.
+func (p *Peer) VerifPinActive(old bool) {
+	if old {
+		p.lastActive = time.Time{}
+	} else {
+		p.lastActive = time.Now()
+	}
+}
+
+// VerifActiveOld reports whether active() has never fired (or was aged).
+func (p *Peer) VerifActiveOld() bool { return p.lastActive.IsZero() }
